@@ -23,7 +23,7 @@ def units(tier):
     return C15.scenario_units(tier) + out
 
 
-replay = replay_api
+replay = replay_c15
 INFO = {
     "trusted_base": [TB["T1"], TB["T2"], TB["T3"]],
     "assumptions": ["requests are classified by an independent decoder of the request bytes handed to Inverter._read_from_socket / ProtocolCommand.execute (function code 3 / AA55 control byte 0x01 = read)",
